@@ -23,6 +23,25 @@ CHECKS = {
         "note": "Trusted: tagged encoding; doubles take part in arithmetic only where the exact result is representable; $bit operands < 2^30; $currentDate is an opaque token.",
         "technique": "TLA+ specification of update operators checked by TLC; code->spec validation of recorded mongokit.Apply evaluations",
     },
+    "C13": {
+        "level": "model_checking",
+        "text": "Every recorded Find / FindOne / FindOneAnd* / Distinct call (sort, skip, limit options; collections of 0-6 and 13-20 tie-rich documents; a second "
+                "differently sorted read and an unsorted read on the same collection) is judged by TLC against SortDistinct.tla: the lungo-shaped pipeline FindImpl, "
+                "the declarative window-of-the-stable-sort FindRef, non-decreasing order and DistinctOK; TLC proves on a bounded universe that SortDocs is the stable "
+                "non-decreasing permutation and that the pipeline equals the window for all skip/limit.",
+        "note": "Trusted: tagged encoding; BSON!Cmp as value order (checked against bsonkit.Compare by C12). Sort keys that are empty arrays or fan out through arrays of "
+                "sub-documents are outside the domain and only counted.",
+        "technique": "TLA+ specification of sort/window/distinct checked by TLC; code->spec validation of recorded driver calls",
+    },
+    "C14": {
+        "level": "model_checking",
+        "text": "Every generated (document, projection) is evaluated by mongokit.Project and through Find/FindOne/FindOneAndUpdate with SetProjection; TLC judges the "
+                "recorded result against Projection!Project and the sub-document relation inside the property's domain; non-mutation is observed on real code "
+                "(byte comparison of the stored document after every projected read, repeated reads, mutation of returned values); TLC proves ProjSubDocument, "
+                "ProjExact and ProjMixRejected on a bounded universe.",
+        "note": "Trusted: tagged encoding. Paths with numeric components, paths through arrays and nested overlay paths are outside the domain (property text) and only counted.",
+        "technique": "TLA+ specification of projection checked by TLC; code->spec validation of recorded mongokit.Project evaluations plus real-code non-mutation observation",
+    },
     "C12": {
         "level": "model_checking",
         "text": "TLC checks on BSON.tla that the reference order Cmp is a total preorder consistent with the class order on all pairs and triples of a "
